@@ -22,7 +22,7 @@ TRUSTED = [
 ASSUMPTIONS = [
     "domain: chains L 2..7 (periodic 3..6), local dimension 2 (3 for L <= 4), graphs with <= 6 nodes, lattices up to 3x3 and 2x2x2; "
     "random complex Hermitian (for LocalHam* also non-Hermitian) site-dependent non-exchange-symmetric terms",
-    "no truncation: split cutoff 0 (state tolerance 1e-8) or the default cutoff 1e-10 on the discarded weight (tolerance 1e-4); no bond cap",
+    "no truncation: split cutoff 0 (state tolerance 1e-8) or the default cutoff 1e-10 on the discarded weight (tolerance 1e-3: imaginary time amplifies the truncation); no bond cap",
     "periodic MPS have no canonical form, so without truncation every gate doubles the bond: periodic histories are limited to two "
     "calls / two steps with orders 1 and 2; order 4 on periodic chains is covered at the level of single sweeps",
     "odd periodic chains: the right sweep contains two overlapping bonds, so merged (queued) right sweeps are not the product of the "
